@@ -18,7 +18,7 @@ SPECS = [
     ('reshape_noop', True), ('ravel_m_T', True), ('reshape_m_T', True),
     ('row_list', True), ('diag_list', True), ('col_list', True), ('row_dict', True), ('diag_dict', True), ('col_dict', True),
     ('diag_nested', True), ('row_single', True), ('diag_single', True), ('col_single', True), ('diag_treeblock', True),
-    ('sum_pq', True), ('comp_pq', True), ('comp_sum_diag', True), ('neg_p', True),
+    ('sum_pq', True), ('comp_pq', True), ('comp_sum_diag', True), ('neg_p', True), ('comp_two_scalars', True), ('comp_scalar_rect', True),
     ('rot_iqu', False), ('rot_qu', False), ('rot_iquv_scalar', False), ('rot_iqu_T', False), ('rot_i', True),
     ('hwp_iqu', True), ('hwp_iquv', True), ('pol_iqu', True), ('pol_qu', True), ('pol_i', True), ('pol_iqu_T', True),
     ('toep_dense', True), ('toep_direct', True), ('toep_fft', False), ('toep_os', False), ('toep_batched', False),
@@ -26,13 +26,13 @@ SPECS = [
     ('index_tree', True), ('pack_iqu', True), ('pack_iqu_T', True),
     ('bdiag_left', True), ('bdiag_right', True), ('bdiag_left_T', True),
     ('diag_a', True), ('diag_m_axis0', True), ('diag_tree', True), ('diag_a_inv', True), ('diag_zero_inv', True),
-    ('diag_2d', True),
+    ('diag_2d', True), ('diag_5', True), ('diag_tree_neg', True), ('dense_widening', True), ('bdiag_widening', True),
     ('lazy_inv_spd', False), ('toast_obs', True), ('toast_obs_T', True),
 ]
 SPEC_NAMES = [s[0] for s in SPECS]
 EXACT = dict(SPECS)
 NO_TRANSPOSE = {'lazy_inv_spd'}          # the library does not support transposes of the iterative inverse
-SINGLE_ONLY = {'toep_os', 'toep_batched'}  # ~100 ms per application (fori_loop re-traced): singles only; C09 owns the methods
+SINGLE_ONLY = {'toep_os', 'toep_batched', 'dense_widening', 'bdiag_widening'}  # widening: float16 data would overflow in products  # ~100 ms per application (fori_loop re-traced): singles only; C09 owns the methods
 MASKED = {'index_mask', 'pack_iqu', 'pack_iqu_T'}  # boolean-mask selection: excluded from the filter_jit-as-argument claim
 
 _MEMO: dict = {}
@@ -175,6 +175,10 @@ def _build(name, dt):
         return (P() + Q()) @ Dg()
     if name == 'neg_p':
         return -P()
+    if name == 'comp_two_scalars':   # reduce() has to merge two scalar factors (HomothetyRule rebuilds the factor)
+        return (HomothetyOperator(arr(2.0), a) @ Dg()) @ (HomothetyOperator(arr(-3.0), a) @ Q())
+    if name == 'comp_scalar_rect':   # scalar on the larger side: reduce() moves it to the smaller one
+        return HomothetyOperator(arr(0.5), b) @ G() @ HomothetyOperator(arr(4.0), a)
     if name == 'rot_iqu':
         return QURotationOperator(arr([0.3, -1.1]), stokes('IQU', 2))
     if name == 'rot_qu':
@@ -234,6 +238,14 @@ def _build(name, dt):
         return Dg().I
     if name == 'diag_zero_inv':
         return DiagonalOperator(arr([2, 0]), in_structure=a).I
+    if name == 'diag_5':   # same space as the Toeplitz specimens: symmetric-tagged operators that do not commute
+        return DiagonalOperator(arr([2, -1, 4, 0.5, 3]), in_structure=sds(5))
+    if name == 'diag_tree_neg':   # negative axis on leaves of different rank: it resolves to a different axis per leaf
+        return DiagonalOperator(arr([2, -4, 8]), axis_destination=-1, in_structure={'u': b, 'v': m})
+    if name == 'dense_widening':   # output dtype wider than the input dtype (float16 data, wider parameters)
+        return DenseBlockDiagonalOperator(arr([[4097, 2], [3, 0.125]]), jax.ShapeDtypeStruct((2,), jnp.float16), 'ij,j->i')
+    if name == 'bdiag_widening':
+        return BroadcastDiagonalOperator(arr([[4097, 3, 5], [2, 8195, 1]]), axis_destination=-1, in_structure=jax.ShapeDtypeStruct((3,), jnp.float16))
     if name == 'diag_2d':
         return DiagonalOperator(seq(2, 3), axis_destination=(0, 1), in_structure=m)
     if name == 'lazy_inv_spd':
@@ -276,7 +288,7 @@ def cases(tier: str, dts=('f32',), modulus=4):
         names = [n for n in SPEC_NAMES if n not in SINGLE_ONLY]
         for i, x in enumerate(names):
             for j, y in enumerate(names):
-                if tier == 'quick' and (i * 7 + j * 3) % modulus != 0 and not (_same_family(x, y) and modulus <= 4):
+                if tier == 'quick' and (i * 7 + j * 3) % modulus != 0 and not (_same_family(x, y) and (modulus <= 4 or (x in SYMMETRIC_TAGGED and y in SYMMETRIC_TAGGED))):
                     continue
                 out.append({'a': x, 'b': y, 'dt': dt})
     return out
@@ -289,8 +301,11 @@ def mixed_cases():
     return [{'a': x, 'b': y, 'dt': 'f32', 'dt_b': 'f64'} for x in names for y in names]
 
 
+SYMMETRIC_TAGGED = {'identity_a', 'hom2_a', 'diag_a', 'diag_a_inv', 'diag_5', 'toep_dense', 'toep_direct', 'toep_fft', 'hwp_iqu', 'diag_m_axis0', 'diag_2d'}
+
+
 def _same_family(x, y):
-    return x.split('_')[0] == y.split('_')[0]
+    return x.split('_')[0] == y.split('_')[0] or (x in SYMMETRIC_TAGGED and y in SYMMETRIC_TAGGED)
 
 
 def materialize(case):
